@@ -357,6 +357,10 @@ func (g *DependencyGraph) TopologicalSort() ([]*Node, error) {
 	g.mu.Lock()
 	defer g.mu.Unlock()
 
+	// The per-node dependency and dependent lists are only brought up to date by DetectCycles after deferred adds:
+	// recompute them from the edges, so that the order does not depend on what was called before
+	g.updateDegrees()
+
 	// Perform Kahn's algorithm for topological sort
 	result := make([]*Node, 0, len(g.nodes))
 
